@@ -415,20 +415,23 @@ class SMPose(SMUserList):
         """
         s = base.getvector(s)
         if start is not None:
-            assert len(start) == 1, 'len(start) must == 1'
+            if not (len(start) == 1):
+                raise ValueError('len(start) must == 1')
             start = start.A
 
         if self.N == 2:
             # SO(2) or SE(2)
             if len(s) > 1:
-                assert len(self) == 1, 'if len(s) > 1, len(X) must == 1'
+                if not (len(self) == 1):
+                    raise ValueError('if len(s) > 1, len(X) must == 1')
                 return self.__class__([base.trinterp2(start, self.A, s=_s) for _s in s], check=False)
             else:
                 return self.__class__([base.trinterp2(start, x, s=s[0]) for x in self.data], check=False)
         elif self.N == 3:
             # SO(3) or SE(3)
             if len(s) > 1:
-                assert len(self) == 1, 'if len(s) > 1, len(X) must == 1'
+                if not (len(self) == 1):
+                    raise ValueError('if len(s) > 1, len(X) must == 1')
                 return self.__class__([base.trinterp(start, self.A, s=_s) for _s in s], check=False)
             else:
                 return self.__class__([base.trinterp(start, x, s=s[0]) for x in self.data], check=False)
@@ -859,7 +862,8 @@ class SMPose(SMUserList):
 
         """
 
-        assert isinstance(n, (int, np.integer)), 'exponent must be an int'
+        if not (isinstance(n, (int, np.integer))):
+            raise TypeError('exponent must be an int')
         return self.__class__([np.linalg.matrix_power(x, n) for x in self.data], check=False)
     #----------------------- arithmetic
 
@@ -1296,7 +1300,8 @@ class SMPose(SMUserList):
         =========   ==========   ====  ================================
 
         """
-        assert type(left) == type(right), 'operands to == are of different types'
+        if not (type(left) == type(right)):
+            raise TypeError('operands to == are of different types')
         def equal(x, y):
             if x.dtype == 'O' or y.dtype == 'O':
                 # symbolic values: structural equality of the elements
